@@ -114,3 +114,70 @@ Proof. vm_compute. repeat split. Qed.
 Example C20_example : shared_statements [pA; pR; pA] = [] /\
   run [] true true [2%nat; 0%nat; 1%nat; 1%nat; 0%nat; 2%nat; 7%nat; 0%nat] [pA; pR; pA] = serial [] true true [pA; pR; pA].
 Proof. vm_compute. split; reflexivity. Qed.
+
+(* ------------------------------------------------------------------ *)
+(* Keyed cells: containers the statement model does not interpret (a per-connection cache of
+   compiled statements, a class-level column namespace).  With an empty inventory the column
+   namespace of a FROM-subquery is private to one compilation and the aggregator nodes are
+   private to one execution: every schedule gives the serial results, for any number of
+   threads, statements and groups. *)
+Theorem C20_keyed_cells_isolation : forall (cells : list cell_id) (sched : list nat)
+    (qs : list ns_stmt) (gs : list (list (list Z))),
+  cells = [] ->
+  krun sched (map (ns_thread (keyed_cells_shared cells)) qs) = kserial (map (ns_thread (keyed_cells_shared cells)) qs) /\
+  krun sched (map (agg_emit (keyed_cells_shared cells)) gs) = kserial (map (agg_emit (keyed_cells_shared cells)) gs).
+Proof. exact keyed_cells_isolation. Qed.
+Print Assumptions C20_keyed_cells_isolation.
+
+(* The scheduler-level statement behind it. *)
+Theorem C20_keyed_private_threads_commute : forall (A : Type) (ts : list (kcomp A)) (s : kstore) (sched : list nat),
+  Forall kprivate ts -> krun_state sched (ts, s) = krun_state [] (ts, s).
+Proof. exact kisolation_sched. Qed.
+Print Assumptions C20_keyed_private_threads_commute.
+
+(* Why the hypothesis matters (the two designs the inventory must exclude).
+   (a) ONE column namespace for all FROM-subqueries (a class attribute):
+       T0: SELECT a, f(1), b, b FROM (SELECT .. AS a, .. AS b)      names a=10, b=11
+       T1: SELECT f(2), b, a, b FROM (SELECT .. AS b, .. AS a)
+       schedule [1]: T1 compiles its FROM clause and stops in f(2); T0 compiles entirely; T1 resumes and binds
+       b, a, b to T0's columns. *)
+Definition nsA : ns_stmt := mkNs [10; 11] [10] [11; 11].
+Definition nsB : ns_stmt := mkNs [11; 10] [] [11; 10; 11].
+Example C20_shared_column_namespace_witness :
+  krun [1%nat] (map (ns_thread true) [nsA; nsB]) = [[Some 0; Some 1; Some 1]; [Some 1; Some 0; Some 1]]
+  /\ kserial (map (ns_thread true) [nsA; nsB]) = [[Some 0; Some 1; Some 1]; [Some 0; Some 1; Some 0]]
+  /\ krun [1%nat] (map (ns_thread false) [nsA; nsB]) = [[Some 0; Some 1; Some 1]; [Some 0; Some 1; Some 0]].
+Proof. vm_compute. repeat split. Qed.
+
+Example C20_shared_column_namespace_refuted :
+  exists (qs : list ns_stmt) (sched : list nat),
+    krun sched (map (ns_thread true) qs) <> kserial (map (ns_thread true) qs).
+Proof. exists [nsA; nsB], [1%nat]. vm_compute. discriminate. Qed.
+
+(* (b) ONE compiled tree for all executions of a statement text on a connection (cached):
+       SELECT account, f(max(number)), f(sum(position)) GROUP BY account, groups (7, 17) (4, -7) (-3, -10),
+       the same statement in both threads; schedule [1]: T1 finalises its first group, reads the first value and
+       stops in f; T0 runs to its end (the nodes keep the values of the LAST group); T1 resumes and reads the
+       second value of its first group from the nodes: -10 instead of 17. *)
+Definition groups3 : list (list Z) := [[7; 17]; [4; -7]; [-3; -10]].
+Definition rows3 : list (list (option Z)) := [[Some 7; Some 17]; [Some 4; Some (-7)]; [Some (-3); Some (-10)]].
+Example C20_shared_compiled_statement_witness :
+  krun [1%nat] (map (agg_emit true) [groups3; groups3])
+    = [rows3; [[Some 7; Some (-10)]; [Some 4; Some (-7)]; [Some (-3); Some (-10)]]]
+  /\ kserial (map (agg_emit true) [groups3; groups3]) = [rows3; rows3]
+  /\ krun [1%nat] (map (agg_emit false) [groups3; groups3]) = [rows3; rows3].
+Proof. vm_compute. repeat split. Qed.
+
+Example C20_shared_compiled_statement_refuted :
+  exists (gs : list (list (list Z))) (sched : list nat),
+    krun sched (map (agg_emit true) gs) <> kserial (map (agg_emit true) gs).
+Proof. exists [groups3; groups3], [1%nat]. vm_compute. discriminate. Qed.
+
+(* The keyed-cell theorem instantiated with what was extracted from the code. *)
+Theorem C20_keyed_cells_isolation_of_this_tree : forall (sched : list nat) (qs : list ns_stmt) (gs : list (list (list Z))),
+  krun sched (map (ns_thread (keyed_cells_shared query_time_shared_cells)) qs)
+    = kserial (map (ns_thread (keyed_cells_shared query_time_shared_cells)) qs) /\
+  krun sched (map (agg_emit (keyed_cells_shared query_time_shared_cells)) gs)
+    = kserial (map (agg_emit (keyed_cells_shared query_time_shared_cells)) gs).
+Proof. intros. apply keyed_cells_isolation. exact C20_inventory_empty. Qed.
+Print Assumptions C20_keyed_cells_isolation_of_this_tree.
